@@ -74,28 +74,49 @@ Definition with_item_viols (item : tree) : list viol :=
   | None => []
   end.
 
+(* NodeVisitor.visit dispatches on the class name: the classes SafetyAnalyzer treats specially
+   (visit_Starred, visit_FunctionDef, visit_Try only call generic_visit: COther) *)
+Inductive kcl := CImport | CImportFrom | CCall | CAttribute | CName | CAsyncDef | CAwait | CWith | CGlobal | COther.
+Definition klass (k : str) : kcl :=
+  if str_eqb k $"Import" then CImport
+  else if str_eqb k $"ImportFrom" then CImportFrom
+  else if str_eqb k $"Call" then CCall
+  else if str_eqb k $"Attribute" then CAttribute
+  else if str_eqb k $"Name" then CName
+  else if str_eqb k $"AsyncFunctionDef" then CAsyncDef
+  else if str_eqb k $"Await" then CAwait
+  else if str_eqb k $"With" then CWith
+  else if str_eqb k $"Global" then CGlobal
+  else COther.
+
 (* what the visit_<kind> method of this node reports itself *)
 Definition local (allow_print : bool) (t : tree) : list viol :=
-  if is_kind "Import" t then flat_map (fun a => mod_viols (attr_d "name" a)) (children "names" t)
-  else if is_kind "ImportFrom" t then
-    match attr "module" t with
-    | None => [(KImportRelative, [])]
-    | Some m => mod_viols m
-    end
-  else if is_kind "Call" t then call_viols allow_print t
-  else if is_kind "Attribute" t then
-    (if mem_str (attr_d "attr" t) PY_REFLECTION_ATTRS then [(KReflAttr, attr_d "attr" t)] else [])
-  else if is_kind "Name" t then
-    (if mem_str (attr_d "id" t) PY_DANGEROUS_NAMES then [(KReflName, attr_d "id" t)] else [])
-  else if is_kind "AsyncFunctionDef" t then [(KAsyncDef, [])]
-  else if is_kind "Await" t then [(KAwait, [])]
-  else if is_kind "With" t then flat_map with_item_viols (children "items" t)
-  else [].   (* Starred, FunctionDef, Try, Global: nothing; every other class: no visit_ method *)
+  match klass (kind_of t) with
+  | CImport => flat_map (fun a => mod_viols (attr_d "name" a)) (children "names" t)
+  | CImportFrom =>
+      match attr "module" t with
+      | None => [(KImportRelative, [])]
+      | Some m => mod_viols m
+      end
+  | CCall => call_viols allow_print t
+  | CAttribute =>
+      if mem_str (attr_d "attr" t) PY_REFLECTION_ATTRS then [(KReflAttr, attr_d "attr" t)] else []
+  | CName =>
+      if mem_str (attr_d "id" t) PY_DANGEROUS_NAMES then [(KReflName, attr_d "id" t)] else []
+  | CAsyncDef => [(KAsyncDef, [])]
+  | CAwait => [(KAwait, [])]
+  | CWith => flat_map with_item_viols (children "items" t)
+  | CGlobal | COther => []
+  end.
 
-(* does the method go on to generic_visit(node)? *)
+(* does the method go on to generic_visit(node)?  visit_Global is `pass`; visit_ImportFrom returns
+   early for `from . import x` *)
 Definition descends (t : tree) : bool :=
-  if is_kind "ImportFrom" t then match attr "module" t with None => false | Some _ => true end
-  else negb (is_kind "Global" t).
+  match klass (kind_of t) with
+  | CImportFrom => match attr "module" t with None => false | Some _ => true end
+  | CGlobal => false
+  | _ => true
+  end.
 
 (* SafetyAnalyzer.visit(node); analyzer.violations in order *)
 Fixpoint visit (allow_print : bool) (t : tree) : list viol :=
